@@ -244,9 +244,9 @@ struct VState
   bool joined;
   bool final_seen;
 } vs;
-enum { PV_UPDATE_TRUE = 0, PV_UPDATE_FALSE, PV_SKIPPED_VALUE, PV_UPDATE_DURING_ASSIGN };
+enum { PV_UPDATE_TRUE = 0, PV_UPDATE_FALSE, PV_SKIPPED_VALUE, PV_UPDATE_DURING_ASSIGN, PV_EMPTY_VALUE };
 const char *vprobe_names[] = {"update_returned_true", "update_returned_false", "consumer_skipped_an_intermediate_value",
-                              "update_overlapped_assignment", nullptr};
+                              "update_overlapped_assignment", "an_assignment_of_zero_or_the_empty_string", nullptr};
 
 void vreset()
 {
@@ -264,6 +264,12 @@ void vplan_fn(int tier)
     unsigned k = sim_plan(5);
     vplan.ops[i] = k < 3 ? C12V_UPDATE : (k == 3 ? C12V_GET : C12V_REF);
   }
+  // one assignment may write the payload type's natural "nothing" value (0, the empty string): still unique in the run
+  vplan.empty_at = -1;
+  if (vplan.nassign > 0 && sim_plan(3) == 0) {
+    vplan.empty_at = sim_plan(2) ? vplan.nassign : 1 + (int)sim_plan((uint32_t)vplan.nassign);
+    sim_probe(PV_EMPTY_VALUE);
+  }
 }
 void vcheck()
 {
@@ -272,8 +278,8 @@ void vcheck()
 }
 void vdescribe(char *buf, size_t n)
 {
-  int k = snprintf(buf, n, "{\"payload\": \"%s\", \"assignments\": %d, \"producer_work\": %d, \"consumer_ops\": [",
-                   vplan.payload ? "std::string" : "int", vplan.nassign, vplan.work);
+  int k = snprintf(buf, n, "{\"payload\": \"%s\", \"assignments\": %d, \"producer_work\": %d, \"assignment_of_zero_or_empty\": %d, \"consumer_ops\": [",
+                   vplan.payload ? "std::string" : "int", vplan.nassign, vplan.work, vplan.empty_at);
   static const char *nm[] = {"update", "get", "ref"};
   for (int i = 0; i < vplan.nops; i++)
     k += snprintf(buf + k, n - k, "%s\"%s\"", i ? "," : "", nm[vplan.ops[i]]);
